@@ -11,6 +11,9 @@ CLAIMED = {
          "Trusted: z3, go/ssa, engine intrinsics for bytealg/math/big (Int theory, Skolem decimal digits). Bound: strings <= 4 bytes (quick). Longer strings are outside the claim.", "5/C15"),
 }
 
+CLAIMED["C11"] = ("The write-transaction overlay (ldb batch.Put/Delete/Get/GetNetPutsByPrefix), the store-key construction (innerKey, subBucket, joinBucketPath, isValidBucketName), the uncommitted-write iterator (batchIterator) and db.BytesPrefix are executed symbolically and compared with reference definitions (last-operation-wins list; byte-wise prefix test) for every operation sequence / key / name inside the bounds. These are the pieces on which read-your-writes, bucket isolation and ordered prefix scans rest; they are pure byte and map code, exactly what bounded symbolic execution decides for all byte values (including '_' , digits and 0xff that tests never combine).",
+         "Trusted: z3, go/ssa, engine map/sort intrinsics. Not encoded: goleveldb itself (committed store, durability, iterators over committed data, atomic batch write) and the rocksdb driver; the composition of the overlay with committed data through levelBucket.Get/GetByPrefix is covered only as far as both inputs (overlay answer, store key) are verified separately.", "5/C11")
+
 CLAIMED["C16"] = ("The wallet reader utils.ParsePkScript and the consensus reader txscript.ExtractPkScriptAddrs (parseScript, typeOfScript, GetParsedOpcode, address constructors) are executed symbolically on the same script bytes and compared: exact template shapes with every payload, every second-push length 1..40, every proper prefix of the templates, templates with one opcode byte replaced by any byte, every byte string up to 3 bytes (5 in the thorough tier), and the consensus builders read back. Run-time panics of either reader are implicit assertions. Bounded model checking fits: the readers are byte-level parsers whose disagreement needs one specific byte value.",
          "Trusted: z3, go/ssa, engine intrinsics; bech32/base58 address text is an injective abstract encoding (equal inputs <-> equal text), so text equality is decided on the encoded bytes. Outside: arbitrary scripts longer than 5 bytes other than template-shaped ones; address text decoding.", "5/C16")
 
